@@ -5,8 +5,10 @@ cd /verif
 S=/verif/seeded/$1; shift
 if ! git -C /repo diff --quiet; then echo "/repo dirty, refusing"; exit 2; fi
 git -C /repo apply $S/patch.diff || { echo "patch does not apply"; exit 2; }
+BAK=$(mktemp -d /var/tmp/evbak.XXXX); cp -r /verif/evidence $BAK/
 for p in "$@"; do
   timeout 3000 ./check $p --tier ${TIER:-quick} 2>&1 | grep -v conda | grep -E "VIOLATION|KNOWN-FINDING|^\[$p\]" 
   echo "exit=${PIPESTATUS[0]}"
 done
+rm -rf /verif/evidence; cp -r $BAK/evidence /verif/evidence; rm -rf $BAK
 git -C /repo checkout -- . ; git -C /repo reset -q ; git -C /repo status --short | head -3
